@@ -70,6 +70,7 @@ type ChanCase struct {
 	Seed     int64        `json:"seed"`
 	MaxSteps int          `json:"max_steps"`
 	NoTrace  bool         `json:"no_trace"`
+	ReadCloses []int      `json:"read_closes"` // read numbers at which the inbound handler closes the channel itself
 	Scribble bool         `json:"scribble"` // C10: after every step another pool user obtains and overwrites pooled buffers of every size class
 	Swallow  bool         `json:"swallow"` // the probe's exception handler consumes every exception
 	CodecKind string      `json:"codec"` // "delim": text codec + delimiter codec ("\x00"); "lf": 2-byte length-field codec; wire parsed into frames
@@ -186,6 +187,8 @@ type chanWorld struct {
 	failKeys   map[string]bool
 	ctxErrSeen map[string]bool
 	fatalFault string
+	rCloseCalls int
+	rFirstCloseWasHandler bool
 	parentCancel context.CancelFunc
 	parentDone   bool
 	excOn      map[string]error
@@ -209,6 +212,16 @@ func (p probe) HandleRead(ctx netty.InboundContext, message netty.Message) {
 	p.w.reads++
 	if p.w.firstRead < 0 {
 		p.w.firstRead = p.w.step
+	}
+	for _, k := range p.w.c.ReadCloses {
+		if k == p.w.reads {
+			// Close from a handler, inside the read loop
+			p.w.closeErr["R"] = errHandlerClose
+			if p.w.rCloseCalls == 0 {
+				p.w.rFirstCloseWasHandler = true
+			}
+			ctx.Close(errHandlerClose)
+		}
 	}
 }
 
@@ -313,6 +326,8 @@ func (c chunkWriterTo) WriteTo(w io.Writer) (int64, error) {
 	}
 	return total, nil
 }
+
+var errHandlerClose = errors.New("close-h1")
 
 func payloadFor(seed int64, id byte, size int) []byte {
 	b := make([]byte, size)
@@ -785,6 +800,12 @@ func (w *chanWorld) oracleStep(noFault bool) {
 	if w.closeRetStep >= 0 && w.ch.IsActive() {
 		w.fail("C05", "active-after-close", "IsActive() is true after a Close call returned")
 	}
+	if w.winner == "R" && w.closeErr["R"] == errHandlerClose && len(w.inactives) == 1 && w.reads >= 1 {
+		// Close issued by a handler inside the read loop took effect: inactive carries its error
+		if hw := w.handlerCloseWon(); hw && w.inactives[0] != errHandlerClose {
+			w.fail("C05", "inactive-error/handler", fmt.Sprintf("inactive carried %v, the Close that took effect was issued by a handler with %v", w.inactives[0], errHandlerClose))
+		}
+	}
 	if w.winnerRet >= 0 {
 		if w.ch.Context().Err() == nil {
 			w.fail("C05", "ctx-after-close", "channel context not cancelled after the effective Close returned")
@@ -798,6 +819,12 @@ func (w *chanWorld) oracleStep(noFault bool) {
 			w.fail("C05", "transport-close-count", fmt.Sprintf("transport closed %d times after the effective Close returned", closes))
 		}
 	}
+}
+
+// handlerCloseWon: the winning Close of process R was the handler's (not the loop's own Close(nil) or
+// the exception path): true iff the handler close happened before any other Close call of R
+func (w *chanWorld) handlerCloseWon() bool {
+	return w.rCloseCalls == 1 || w.rFirstCloseWasHandler
 }
 
 func (w *chanWorld) winnerArg() string {
@@ -1055,6 +1082,9 @@ func runChanCase(c *ChanCase) *ChanResult {
 						break
 					}
 				}
+			}
+			if gate == "c.cas" && proc == "R" {
+				w.rCloseCalls++
 			}
 			if gate == "c.cas" && w.closeInvoked < 0 && netty.VerifState(w.ch).Closed == 0 {
 				// this call will win the CAS: Close is "invoked" now
